@@ -13,8 +13,8 @@ CONSTANTS
   ShutNum = 1
   ShutDen = 4
   PropTol = 2
-  RandNDropsRemainder = TRUE
-  ShutDownSavesUnderCaller = TRUE
+  RandNDropsRemainder = FALSE
+  ShutDownSavesUnderCaller = FALSE
   Balances = {0, 3, 5}
   MinStakes = {0}
   MaxN = 0
